@@ -1,1 +1,2 @@
+pub mod crash;
 pub mod seq;
